@@ -144,6 +144,11 @@ namespace awkward {
 
   void
   RecordArrayBuilder::end_list(LayoutBuilder* builder) {
+    if (list_field_index_.empty()) {
+      throw std::invalid_argument(
+        std::string("called 'end_list' without 'begin_list' at the same level before it")
+        + FILENAME(__LINE__));
+    }
     field_index_ = list_field_index_.back();
     contents_[(size_t)field_index_].get()->end_list(builder);
     list_field_index_.pop_back();
